@@ -859,3 +859,45 @@ def rethrow(progs):
                                        'a catch handler can complete without re-throwing: the exception is swallowed and the operation continues although '
                                        'its step failed', where=f['pname'], unit=prog.uname))
     return rr
+
+
+# ====================================================================================== CURSOR
+def cursor(progs):
+    """Clean-up loops of the form try { for (...) construct(cur) } catch { destroy(first, cur) }: the cursor the handler reads must not be
+    advanced inside the argument list of the call that may throw - it would already point past a slot that holds no object."""
+    rr = RuleResult('CURSOR', 'the cursor read by a roll-back handler is never advanced inside the arguments of the constructing call it guards: when '
+                              'the k-th constructor throws the handler sees exactly the k objects that exist')
+    for prog in progs:
+        for f in prog.amc_functions():
+            body = f.get('body')
+            if body is None or not in_layer(f):
+                continue
+            for t in walk(body):
+                if t.get('k') != 'try':
+                    continue
+                hvars = set()
+                for h in t.get('handlers', []):
+                    hvars |= {x.get('did') for x in walk(h.get('body') or {}) if x.get('k') == 'ref' and x.get('dk') == 'local'}
+                cons = [c for c in walk(t.get('body') or {}) if (c.get('k') == 'call' and R.role(c)[0] == 'construct') or (c.get('k') == 'new' and c.get('reserved_placement'))]
+                if not cons or not hvars:
+                    continue
+                bad = None
+                P = A.Parents(t.get('body'))
+                for c in cons:
+                    lp = P.in_loop(c)
+                    scope = (lp.get('body') if lp is not None else None) or t.get('body')
+                    order = A.eval_order(scope)
+                    if id(c) not in order:
+                        continue
+                    for x in walk(scope):
+                        if x.get('k') == 'un' and x.get('op') in ('++', '--') and id(x) in order and order[id(x)] < order[id(c)]:
+                            s_ = A.strip(x.get('sub'))
+                            if isinstance(s_, dict) and s_.get('k') == 'ref' and s_.get('dk') == 'local' and s_.get('did') in hvars:
+                                bad = (c, s_.get('name'))
+                rr.instance('%s|%s' % (f['key'], rel(prog.site(f, t))), {'function': f['pname'][:150], 'constructs_in_try': len(cons), 'handler_cursors': len(hvars),
+                                                                         'verdict': 'cursor advanced after the construct' if not bad else 'FAILS'})
+                if bad:
+                    rr.add(Finding('CURSOR', '%s|%s' % (f['key'], bad[1]), prog.site(f, bad[0]),
+                                   'the roll-back cursor `%s` is advanced before the constructing call of the same iteration has succeeded: if the constructor throws, the handler '
+                                   'destroys one slot that holds no object' % bad[1], where=f['pname'], unit=prog.uname))
+    return rr
